@@ -80,6 +80,43 @@ void edit(NifFile& nif, const std::string& e, size_t salt) {
 	}
 }
 
+// Starfield shapes keep their geometry in external mesh files; a synthetic one is attached to every mesh slot so that the
+// geometry reached through BSGeometry shapes exists in the models under test
+template<typename T>
+void putLE(std::string& s, T v) {
+	s.append((const char*) &v, sizeof v);
+}
+std::string meshFile(uint16_t nVerts, uint16_t nTris, int16_t base) {
+	std::string s;
+	putLE<uint32_t>(s, 1);
+	putLE<uint32_t>(s, uint32_t(nTris) * 3);
+	for (uint16_t t = 0; t < nTris; t++) {
+		putLE<uint16_t>(s, uint16_t(t % nVerts));
+		putLE<uint16_t>(s, uint16_t((t + 1) % nVerts));
+		putLE<uint16_t>(s, uint16_t((t + 2) % nVerts));
+	}
+	putLE<float>(s, 1.0f);
+	putLE<uint32_t>(s, 0);
+	putLE<uint32_t>(s, nVerts);
+	for (uint16_t v = 0; v < nVerts; v++) {
+		putLE<int16_t>(s, int16_t(base + v));
+		putLE<int16_t>(s, int16_t(base + 2 * v));
+		putLE<int16_t>(s, int16_t(base + 3 * v));
+	}
+	for (int k = 0; k < 9; k++) putLE<uint32_t>(s, 0); // uv1, uv2, colours, normals, tangents, weights, lods, meshlets, cull data
+	return s;
+}
+void attachMeshes(NifFile& nif) {
+	int n = 0;
+	for (auto sh : nif.GetShapes())
+		if (auto geo = dynamic_cast<BSGeometry*>(sh))
+			for (uint8_t m = 0; m < geo->MeshCount(); m++) {
+				std::istringstream in(meshFile(uint16_t(5 + n), uint16_t(4 + n), int16_t(1000 + 100 * n)), std::ios::binary);
+				nif.LoadExternalShapeData(geo, in, m);
+				n++;
+			}
+}
+
 int cmdRun(int argc, char** argv) {
 	if (argc < 4) return 2;
 	auto hists = readLines(argv[1]);
@@ -99,6 +136,7 @@ int cmdRun(int argc, char** argv) {
 			JV h = jparse(hists[i / files.size()]);
 			std::unique_ptr<NifFile> A(new NifFile()), B;
 			if (A->Load(samplePath(fn)) != 0) return;
+			attachMeshes(*A);
 			ContentIds ids;
 			size_t step = 0;
 			for (auto& act : h.a) {
@@ -123,6 +161,7 @@ int cmdRun(int argc, char** argv) {
 					{
 						NifFile ref;
 						if (ref.Load(samplePath(fn)) == 0) {
+							attachMeshes(ref);
 							size_t st = 0;
 							for (auto& pa : h.a) {
 								if (pa["op"].s == "Copy") break;
